@@ -107,19 +107,38 @@ theorem vec_movePos (T : V3 → V3) (q : Pos) (h : ∃ x y z, q = Pos.at x y z) 
   obtain ⟨x, y, z, rfl⟩ := h
   rfl
 
+theorem length_moveAll (T : V3 → V3) (atoms : List Atom) : (moveAll T atoms).length = atoms.length := by
+  simp [moveAll]
+
+theorem nodesOf_moveAll (T : V3 → V3) (atoms : List Atom) (r : ResKey) :
+    nodesOf (moveAll T atoms) r = nodesOf atoms r := by
+  unfold nodesOf
+  rw [length_moveAll]
+  apply List.filter_congr
+  intro i _
+  rw [atomAt_moveAll]; rfl
+
+theorem residues_moveAll (T : V3 → V3) (atoms : List Atom) : residues (moveAll T atoms) = residues atoms := by
+  unfold residues moveAll
+  rw [List.map_map]
+  rfl
+
+theorem connFull_moveAll (T : V3 → V3) (atoms : List Atom) (E : List (ResKey × ResKey)) (sep : Nat) :
+    connFull (moveAll T atoms) E sep = connFull atoms E sep := by
+  unfold connFull connWrites
+  simp only [length_moveAll, residues_moveAll, nodesOf_moveAll]
+
+theorem domFull_moveAll (T : V3 → V3) (sel : List Nat) (atoms : List Atom) (d : Domain) :
+    domFull sel (moveAll T atoms) d = domFull sel atoms d := by
+  unfold domFull domWrites
+  simp only [length_moveAll, atomAt_moveAll, crit_moveAtom]
+
 theorem mats_moveAll (T : V3 → V3) (hT : ∀ u v, dist2 (T u) (T v) = dist2 u v)
     (atoms : List Atom) (edges : List (Int × Int)) (p : Params)
     (hpos : ∀ i ∈ selection p.names atoms, ∃ x y z, (atomAt atoms i).pos = Pos.at x y z) :
     mats (moveAll T atoms) edges p = mats atoms edges p := by
   unfold mats
-  simp only [selection_moveAll, resEdges_moveAll]
-  have hl : (moveAll T atoms).length = atoms.length := by simp [moveAll]
-  have hc : (fun i j => connEntry (moveAll T atoms) (resEdges atoms edges) p.sep i j)
-      = connEntry atoms (resEdges atoms edges) p.sep := by
-    funext i j; exact connEntry_moveAll T atoms _ _ i j
-  have hd : (fun i j => domEntry (selection p.names atoms) (moveAll T atoms) p.dom i j)
-      = domEntry (selection p.names atoms) atoms p.dom := by
-    funext i j; exact domEntry_moveAll T _ atoms _ i j
+  simp only [selection_moveAll, resEdges_moveAll, connFull_moveAll, domFull_moveAll]
   have hcoord : (selection p.names atoms).map (fun i => vec (atomAt (moveAll T atoms) i).pos)
       = ((selection p.names atoms).map (fun i => vec (atomAt atoms i).pos)).map T := by
     rw [List.map_map]
@@ -136,13 +155,7 @@ theorem mats_moveAll (T : V3 → V3) (hT : ∀ u v, dist2 (T u) (T v) = dist2 u 
     apply List.map_congr_left
     intro b _
     exact hT a b
-  rw [hl]
-  congr 1
-  · rw [hcoord]; exact hdist _
-  · show subMatrix (tabulate atoms.length fun i j => connEntry (moveAll T atoms) (resEdges atoms edges) p.sep i j) _ _ = _
-    rw [hc]
-  · show subMatrix (tabulate atoms.length fun i j => domEntry (selection p.names atoms) (moveAll T atoms) p.dom i j) _ _ = _
-    rw [hd]
+  rw [hcoord, hdist]
 
 theorem emit_moveAll (T : V3 → V3) (atoms : List Atom) (p : Params) (M : Mats) :
     emit (moveAll T atoms) p M = emit atoms p M := by
